@@ -6,6 +6,7 @@ import (
 
 	"github.com/ajitpratap0/GoSQLX/pkg/linter"
 	"github.com/ajitpratap0/GoSQLX/pkg/models"
+	"github.com/ajitpratap0/GoSQLX/pkg/sql/tokenizer"
 )
 
 // CaseStyle represents the preferred keyword case style for SQL keywords.
@@ -117,9 +118,14 @@ func NewKeywordCaseRule(preferredStyle CaseStyle) *KeywordCaseRule {
 func (r *KeywordCaseRule) Check(ctx *linter.Context) ([]linter.Violation, error) {
 	violations := []linter.Violation{}
 
+	// Words inside string literals, quoted identifiers and comments are not
+	// keywords, wherever those regions began (possibly on an earlier line).
+	classes := tokenizer.ClassifyBytes(ctx.SQL)
+	offset := 0
 	for lineNum, line := range ctx.Lines {
 		// Tokenize the line to find keywords
-		words := tokenizeLine(line)
+		words := tokenizeClassifiedLine(line, lineClasses(classes, offset, len(line)))
+		offset += len(line) + 1
 
 		for _, word := range words {
 			upperWord := strings.ToUpper(word.text)
@@ -162,51 +168,41 @@ type wordToken struct {
 	column int // 1-indexed column position in the line
 }
 
+// lineClasses returns the byte classes of one line of the text classes were
+// computed for (nil if the line lies outside it).
+func lineClasses(classes []tokenizer.ByteClass, offset, length int) []tokenizer.ByteClass {
+	if offset < 0 || offset+length > len(classes) {
+		return nil
+	}
+	return classes[offset : offset+length]
+}
+
+// isCode reports whether byte i of a line is plain SQL code.
+func isCode(classes []tokenizer.ByteClass, i int) bool {
+	return i >= len(classes) || classes[i] == tokenizer.ByteCode
+}
+
 // tokenizeLine extracts words from a line with their column positions.
 //
 // Parses the line character by character, extracting sequences of letters, digits,
-// and underscores as words. Skips content inside string literals (both single and
-// double quoted) to avoid extracting keywords from SQL string values.
+// and underscores as words. Bytes that classes marks as literal or comment are
+// skipped, so keywords are never taken from string values, quoted identifiers
+// or comments, including those that began on an earlier line.
 //
 // Returns a slice of wordTokens representing each word and its position.
 func tokenizeLine(line string) []wordToken {
+	return tokenizeClassifiedLine(line, tokenizer.ClassifyBytes(line))
+}
+
+// tokenizeClassifiedLine is tokenizeLine for a line of a larger text whose
+// byte classes are already known.
+func tokenizeClassifiedLine(line string, classes []tokenizer.ByteClass) []wordToken {
 	words := []wordToken{}
-	inString := false
-	stringChar := rune(0)
 	wordStart := -1
 	currentWord := strings.Builder{}
 
-	for i, ch := range line {
-		// Handle string literals - skip keywords inside strings
-		if !inString && (ch == '\'' || ch == '"') {
-			inString = true
-			stringChar = ch
-			if wordStart >= 0 {
-				words = append(words, wordToken{
-					text:   currentWord.String(),
-					column: wordStart + 1, // 1-indexed
-				})
-				currentWord.Reset()
-				wordStart = -1
-			}
-			continue
-		}
-
-		if inString {
-			if ch == stringChar {
-				inString = false
-				stringChar = 0
-			}
-			continue
-		}
-
-		// Handle identifiers and keywords
-		if unicode.IsLetter(ch) || ch == '_' || (wordStart >= 0 && unicode.IsDigit(ch)) {
-			if wordStart < 0 {
-				wordStart = i
-			}
-			currentWord.WriteRune(ch)
-		} else if wordStart >= 0 {
+	flush := func() {
+		if wordStart >= 0 {
 			words = append(words, wordToken{
 				text:   currentWord.String(),
 				column: wordStart + 1, // 1-indexed
@@ -216,13 +212,25 @@ func tokenizeLine(line string) []wordToken {
 		}
 	}
 
-	// Don't forget the last word
-	if wordStart >= 0 {
-		words = append(words, wordToken{
-			text:   currentWord.String(),
-			column: wordStart + 1,
-		})
+	for i, ch := range line {
+		if !isCode(classes, i) {
+			flush()
+			continue
+		}
+
+		// Handle identifiers and keywords
+		if unicode.IsLetter(ch) || ch == '_' || (wordStart >= 0 && unicode.IsDigit(ch)) {
+			if wordStart < 0 {
+				wordStart = i
+			}
+			currentWord.WriteRune(ch)
+		} else {
+			flush()
+		}
 	}
+
+	// Don't forget the last word
+	flush()
 
 	return words
 }
@@ -242,8 +250,11 @@ func tokenizeLine(line string) []wordToken {
 func (r *KeywordCaseRule) Fix(content string, violations []linter.Violation) (string, error) {
 	lines := strings.Split(content, "\n")
 
+	classes := tokenizer.ClassifyBytes(content)
+	offset := 0
 	for i, line := range lines {
-		lines[i] = r.fixLine(line)
+		lines[i] = r.fixLine(line, lineClasses(classes, offset, len(line)))
+		offset += len(line) + 1
 	}
 
 	return strings.Join(lines, "\n"), nil
@@ -251,40 +262,28 @@ func (r *KeywordCaseRule) Fix(content string, violations []linter.Violation) (st
 
 // fixLine fixes keyword case in a single line.
 //
-// Uses a state machine to track whether currently inside a string literal. For
-// words outside strings, checks if they're keywords and converts them to the
-// preferred case. Non-keywords are preserved unchanged.
+// Words made of code bytes are checked against the keyword list and converted
+// to the preferred case. Everything else, in particular every byte that
+// classes marks as literal or comment, is copied unchanged.
 //
 // Returns the fixed line with keywords in preferred case.
-func (r *KeywordCaseRule) fixLine(line string) string {
+func (r *KeywordCaseRule) fixLine(line string, classes []tokenizer.ByteClass) string {
 	result := strings.Builder{}
-	inString := false
-	stringChar := rune(0)
 	wordStart := -1
 	currentWord := strings.Builder{}
 
-	runes := []rune(line)
-	for i, ch := range runes {
-		// Handle string literals - don't modify keywords inside strings
-		if !inString && (ch == '\'' || ch == '"') {
-			// Flush current word first
-			if wordStart >= 0 {
-				result.WriteString(r.convertKeyword(currentWord.String()))
-				currentWord.Reset()
-				wordStart = -1
-			}
-			inString = true
-			stringChar = ch
-			result.WriteRune(ch)
-			continue
+	flush := func() {
+		if wordStart >= 0 {
+			result.WriteString(r.convertKeyword(currentWord.String()))
+			currentWord.Reset()
+			wordStart = -1
 		}
+	}
 
-		if inString {
+	for i, ch := range line {
+		if !isCode(classes, i) {
+			flush()
 			result.WriteRune(ch)
-			if ch == stringChar {
-				inString = false
-				stringChar = 0
-			}
 			continue
 		}
 
@@ -295,19 +294,13 @@ func (r *KeywordCaseRule) fixLine(line string) string {
 			}
 			currentWord.WriteRune(ch)
 		} else {
-			if wordStart >= 0 {
-				result.WriteString(r.convertKeyword(currentWord.String()))
-				currentWord.Reset()
-				wordStart = -1
-			}
+			flush()
 			result.WriteRune(ch)
 		}
 	}
 
 	// Don't forget the last word
-	if wordStart >= 0 {
-		result.WriteString(r.convertKeyword(currentWord.String()))
-	}
+	flush()
 
 	return result.String()
 }
